@@ -446,6 +446,10 @@ def m_tables(r):
     return dial, conf, set(K), serializing
 
 
+def ob(b):
+    return "None" if b is None else f"(Some {'true' if b else 'false'})"
+
+
 def m_family(r):
     n = r.randrange(1, 5)
     names = [f"M{i}" for i in range(n)]
@@ -493,8 +497,9 @@ def m_family(r):
                     tainted.add(nm)
             no_default = "N5" in t.py or any(c in tainted for c in t.classes)
             refs[nm].update(t.classes)
-            if r.random() < 0.15:
-                t = MT(f"Final[{t.py}]", f"TWrap ({t.coq})", t.default, False, t.classes)
+            is_final = r.random() < 0.15
+            if is_final:
+                t = MT(f"Final[{t.py}]", t.coq, t.default, False, t.classes)
             # alias sources: field metadata, Annotated Alias, Config.aliases (resolved in that order by the model), empty alias
             meta_alias = ann_alias = cfg_alias = None
             final = t.py.startswith("Final[")
@@ -576,21 +581,33 @@ def m_family(r):
                 body.append(f"    {fname}: {tpy}")
             oq = lambda v: "None" if v is None else f"(Some {coq_str(v)})"
             rdef = "RNone" if not has_default else (f"(RDefault ({jd}))" if jd is not None else "RFactory")
-            cflds.append(f"mkrfld {coq_str(fname)} {oq(meta_alias)} {oq(ann_alias)} ({t.coq}) {'true' if init else 'false'} {rdef} {oq(descr)} "
+            cflds.append(f"mkrfld {coq_str(fname)} {oq(meta_alias)} {oq(ann_alias)} ({t.coq}) {'true' if is_final else 'false'} {'true' if init else 'false'} {rdef} {oq(descr)} "
                          + (f"(Some ({f_ser[1]}))" if f_ser else "None") + " " + (f"(Some ({f_strat[1]}))" if f_strat else "None"))
-        cfg = [f"        {o} = True" for o in ("omit_none", "omit_default", "serialize_by_alias") if r.random() < 0.3]
+        cfg = [f"        {o} = True" for o in ("omit_default", "serialize_by_alias") if r.random() < 0.3]
+        cfg_omit = r.choice([None, None, True, True, False])
+        dial_omit = r.choice([None, None, None, True, False])
+        if cfg_omit is not None:
+            cfg.append(f"        omit_none = {cfg_omit}")
         if ntd:
             cfg.append("        namedtuple_as_dict = True")
         if cfg_aliases:
             cfg.append("        aliases = " + repr(cfg_aliases))
         dial_coq = conf_coq = "[]"
+        if not tabs:
+            if dial_omit is not None:
+                lines.append(f"class D{nm}(Dialect):\n    omit_none = {dial_omit}")
+                cfg.append(f"        dialect = D{nm}")
         if tabs:
             dial, conf = tabs[0], tabs[1]
             if dial:
                 lines.append(f"class D{nm}(Dialect):")
+                if dial_omit is not None:
+                    lines.append(f"    omit_none = {dial_omit}")
                 lines.append("    serialization_strategy = {" + ", ".join(f"{PYKEY[k]}: {v[0]}" for k, v in dial.items()) + "}")
                 cfg.append(f"        dialect = D{nm}")
                 dial_coq = "[" + "; ".join(f'("{k}", {v[1]})' for k, v in dial.items()) + "]"
+            else:
+                dial_omit = None
             if conf:
                 cfg.append("        serialization_strategy = {" + ", ".join(f"{PYKEY[k]}: {v[0]}" for k, v in conf.items()) + "}")
                 conf_coq = "[" + "; ".join(f'("{k}", {v[1]})' for k, v in conf.items()) + "]"
@@ -602,7 +619,7 @@ def m_family(r):
         lines.append("@dataclass")
         lines.append(f"class {nm}:")
         lines.extend(body)
-        coq_classes.append(f'("{nm}", mkrcls [' + "; ".join(f"({coq_str(k)}, {coq_str(v)})" for k, v in cfg_aliases.items()) + "] " + dial_coq + " " + conf_coq + " ["
+        coq_classes.append(f'("{nm}", mkrcls [' + "; ".join(f"({coq_str(k)}, {coq_str(v)})" for k, v in cfg_aliases.items()) + "] " + ob(dial_omit) + " " + ob(cfg_omit) + " " + dial_coq + " " + conf_coq + " ["
                            + "; ".join(cflds) + "])")
 
     def reach_cyclic(root_classes):
